@@ -5,6 +5,7 @@ import OpusProofs.LaplaceP0
 import OpusProofs.CwrsRanges
 import OpusProofs.CeltAllocAgree
 import OpusProofs.CeltHdrExample
+import OpusProofs.CeltFrameExample
 /-
   Property C17 — "PVQ, Laplace and table-driven symbol codes are exact, prefix-free bijections".
 
@@ -513,5 +514,77 @@ example : (match Opus.CeltSymsEnc.encCoarseOne
       { start := 17, end_ := 21, C := 1, LM := 3, vbr := false, lfe := false, size := 10 } [] 2 17
       { e := Opus.RangeCoder.encInit [] 0, ops := [], ds := [-3] } with
     | .ok (q, qd, _) => (q, qd) | _ => (0, 0)) = (-3, -1) := by decide +kernel
+
+/-! ## CELT frame: everything behind the allocation
+
+  Encoder model `Opus.CeltBandsEnc` (OpusModel/CeltBandsEnc.lean, tied call by call to the real encoder on whole
+  frames): `quant_fine_energy`, `quant_all_bands(encode = 1)` — `quant_band`, `quant_partition` with its split
+  recursion, `quant_band_stereo`, `quant_band_n1`, `compute_theta` with the step, uniform and triangular PDFs and the
+  `inv` flag, the PVQ codeword index of every leaf —, the anti-collapse bit and `quant_energy_finalise`; the decisions
+  (fine-energy `q2`, quantised `itheta`, `inv`, sign bits, PVQ indices, anti-collapse flag) are inputs popped where the
+  symbol is written.  bands.c is one code for both directions, so every integer computation that selects the next
+  symbol and its parameters is shared with C03's decoder model `Opus.CeltBands` (its pure functions are used as they
+  are); the theorems show that it is evaluated on equal inputs. -/
+
+/-- **The band data round trip.**  With the same `quant_all_bands` arguments on both sides (what `HdrAgree` provides:
+    transient flag, `tf_res[]`, anti-collapse reservation, and `len` = the encoder's final size; the allocation is
+    `hdr.alloc` on both sides) and from states in lock-step with equal `remaining_bits` (`Sim`): if what the encoder
+    model writes behind the allocation is in the packet (no coder error), C03's `afterAlloc` — `unquant_fine_energy`,
+    the decode side of `quant_all_bands`, the anti-collapse bit, `unquant_energy_finalise` — reads it back and ends in
+    lock-step with the encoder.  Inside, for every symbol: same `b`, `remaining_bits`, `balance`, `qn`, the decoded
+    `itheta` equals the encoded one (step PDF; uniform PDF; triangular PDF, whose two-square-root inverse is proved
+    correct for every even `qn`, every `itheta ≤ qn` and every point of the coded interval), hence same `delta`,
+    `qalloc`, `mbits`/`sbits`/rebalancing, same `q` after the "never bust the budget" loop, same `V(N,K)`. -/
+theorem celt_bands_roundtrip (w : OpusProofs.CeltHdr.World) (P0 : List Opus.RangeCoder.Op)
+    (cfg : Opus.CeltSymsEnc.EncCfg) (hdr : Opus.CeltSymsEnc.EncHdr) (dh : Opus.CeltSyms.CeltHdr) (len : Nat)
+    (hlen : len = hdr.size) (h1 : dh.isTransient = hdr.isTransient) (h2 : dh.tfRes = hdr.tfRes)
+    (h3 : dh.antiCollapseRsv = hdr.antiCollapseRsv)
+    (e : Opus.CeltBandsEnc.ESt) (d : Opus.CeltBands.BSt) (hs : OpusProofs.CeltHdr.Sim w P0 e d)
+    (hp : w.IsPrefix (P0 ++ (Opus.CeltBandsEnc.afterAlloc cfg hdr e).s.ops)) :
+    OpusProofs.CeltHdr.Sim w P0 (Opus.CeltBandsEnc.afterAlloc cfg hdr e)
+      (Opus.CeltBands.afterAlloc ⟨cfg.start, cfg.end_, cfg.C, cfg.LM⟩ len dh hdr.alloc d) :=
+  (OpusProofs.CeltHdr.afterAlloc_step w P0 cfg hdr dh len hlen h1 h2 h3 e d).2 hs hp
+
+/-- the triangular PDF alone: `qn = 6`, `itheta = 5` is coded as `[13, 15)` of 16; both points decode to 5 -/
+example : Opus.CeltBandsEnc.triFl 6 5 = 13 ∧ Opus.CeltBandsEnc.triFs 6 5 = 2 ∧
+    OpusProofs.Tri.decIt 6 13 = 5 ∧ OpusProofs.Tri.decIt 6 14 = 5 := by decide +kernel
+
+/-- **The CELT frame round trip** (non-silent frame; C02's lock-step clause for CELT at the symbol level).  Under the
+    hypotheses of `celt_header_roundtrip`, with `encFrame` (header, allocation, fine energy, band data, anti-collapse
+    bit, finalisation — every call up to `ec_enc_done`) in place of `encHeader`, for every decision stream — every
+    pulse vector, theta, sign — whose calls the coder accepts without error: C03's `celtHeader` on the finished packet
+    returns the encoder's header (`HdrAgree`), and C03's `afterAlloc`, started where the allocation leaves the decoder
+    and given the (identical) allocation, consumes exactly the encoder's calls, never faults (no out-of-range pulse
+    cache index, `ec_dec_uint` argument or `V(N,K)` look-up) and ends with the encoder's `rng` — the value
+    `OPUS_GET_FINAL_RANGE` reports on both sides (`ec_enc_done` does not change `rng`: C08) — `ec_tell` and
+    `ec_tell_frac` (`FrameAgree`). -/
+theorem celt_frame_roundtrip (w : OpusProofs.CeltHdr.World) (P0 : List Opus.RangeCoder.Op)
+    (cfg : Opus.CeltSymsEnc.EncCfg) (s0 : Opus.CeltSymsEnc.St) (hs0 : s0.ops = []) (he0 : s0.e = w.encAt P0)
+    (hst0 : s0.e.storage = cfg.size)
+    (fr : Opus.CeltBandsEnc.EncFrame) (hrun : Opus.CeltBandsEnc.encFrame cfg s0 = .ok fr) (hsil : fr.hdr.silence = 0)
+    (hp : w.IsPrefix (P0 ++ fr.ops))
+    (hcfg : cfg.start < cfg.end_ ∧ cfg.end_ ≤ 21 ∧ (cfg.C = 1 ∨ cfg.C = 2) ∧ cfg.LM ≤ 3)
+    (hsz : cfg.size ≤ 1275) (hlen : w.len = fr.hdr.size)
+    (hmargin : w.len = cfg.size ∨
+      (Opus.RangeCoder.tell (w.encAt (P0 ++ fr.hdr.opsHdr)) + 16 ≤ ((w.len * 8 : Nat) : Int) ∧
+       (Opus.RangeCoder.tellFrac (w.encAt (P0 ++ fr.hdr.opsHdr)) : Int) + fr.hdr.totalBoost + 48 <
+         ((w.len * 8 * 8 : Nat) : Int)))
+    (hroom : Opus.RangeCoder.tell s0.e < ((w.len * 8 : Nat) : Int))
+    (htap : fr.hdr.pf.on ≠ 0 →
+      Opus.RangeCoder.tell (w.encAt (P0 ++ fr.hdr.opsPf.dropLast)) + 2 ≤ ((w.len * 8 : Nat) : Int))
+    (hint : (cfg.start : Int) ≤ fr.hdr.allocInp.intensity)
+    (hdual : fr.hdr.allocInp.dualStereo = 0 ∨ fr.hdr.allocInp.dualStereo = 1) :
+    ∃ dh, Opus.CeltSyms.celtHeader ⟨cfg.start, cfg.end_, cfg.C, cfg.LM⟩ w.len (w.decAt P0) = .ok dh ∧
+      OpusProofs.CeltHdr.FrameAgree w P0 cfg fr dh :=
+  OpusProofs.CeltHdr.frame_roundtrip w P0 cfg s0 hs0 he0 hst0 fr hrun hsil hp hcfg hsz hlen hmargin hroom htap hint hdual
+
+/-- the 24-byte frame of the header example continued to the last bit: 75 coder calls (fine energy, eight one-sample
+    bands, four N = 2 bands, a split N = 4 band with a triangular-PDF theta, finalisation), `ec_tell = 192`: all
+    hypotheses hold -/
+example : ∃ fr, Opus.CeltBandsEnc.encFrame OpusProofs.CeltHdr.Example.cfg OpusProofs.CeltHdr.Example.s0F = .ok fr ∧
+    fr.hdr.silence = 0 ∧ OpusProofs.CeltHdr.Example.worldF.IsPrefix ([] ++ fr.ops) ∧
+    OpusProofs.CeltHdr.Example.worldF.len = fr.hdr.size ∧ fr.ops.length = 75 ∧ Opus.RangeCoder.tell fr.fin = 192 := by
+  obtain ⟨fr, h1, _, _, _, h5, h6, h7, _, _, _, _, _, h13, h14⟩ := OpusProofs.CeltHdr.Example.hypsF
+  exact ⟨fr, h1, h5, h6, h7, h13, h14⟩
 
 end OpusProps.C17
